@@ -607,6 +607,15 @@ class RecordContextMatcher:
         elif isinstance(node, ast.UnaryOp):
             return AST_OPERATORS[type(node.op)](self.eval(node.operand))
         elif isinstance(node, ast.Compare):
+            if len(node.ops) > 1:
+                # Chained comparison: a < b < c is (a < b) and (b < c), evaluated left to right
+                left_node = node.left
+                for op, right_node in zip(node.ops, node.comparators):
+                    if not self.eval(ast.Compare(left=left_node, ops=[op], comparators=[right_node])):
+                        return False
+                    left_node = right_node
+                return True
+
             left = self.eval(node.left)
             right = self.eval(node.comparators[0])
 
